@@ -270,16 +270,21 @@ def check(ctx):
            "one queue item per iteration; its future is awaited and its own (version, data) yielded" if ok
            else "the yielded (version, data) pair is not the one whose future was awaited")
     mk = ctx.fn(S3, "S3VersionUtil.make_request")
-    rets = [n for n in util.own_nodes(mk, ast.Return)]
-    dl = util.method_calls(mk.node, "download")
+    # def-use terms (independent of local names / temporaries): returns (version, BUF, FUT) where BUF is one fresh buffer,
+    # FUT = manager.download(.., BUF, extra_args=<kwargs with VersionId := version['VersionId'] when a version is given>)
+    mr = ctx.builder(inline=lambda *a: False).summarize(mk).ret()
     ok = False
-    if len(rets) == 1 and isinstance(rets[0].value, ast.Tuple) and len(rets[0].value.elts) == 3 and len(dl) == 1:
-        v, d, fu = rets[0].value.elts
-        buf = dl[0].args[2] if len(dl[0].args) > 2 else util.kwarg(dl[0], "fileobj")
-        ok = (isinstance(v, ast.Name) and v.id == "version" and isinstance(d, ast.Name) and isinstance(buf, ast.Name) and buf.id == d.id
-              and len([1 for n in util.own_nodes(mk, ast.Assign) if any(isinstance(t, ast.Name) and t.id == d.id for t in n.targets)]) == 1)
-        vid = [c for c in util.method_calls(mk.node, "setdefault") if c.args and util.const(c.args[0]) == "VersionId"]
-        ok = ok and len(vid) == 1 and ast.unparse(vid[0].args[1]).replace('"', "'") == "version['VersionId']"
+    if mr[0] == "tuple" and len(mr[1]) == 3:
+        v, d, fu = mr[1]
+        VER = ("param", "version")
+        fresh = d[0] == "call" and any(k == "#new" for k, _ in d[3])
+        isdl = fu[0] == "call" and fu[1][0] == "attr" and fu[1][2] == "download"
+        buf = (fu[2][2] if len(fu[2]) > 2 else dict(fu[3]).get("fileobj")) if isdl else None
+        extra = dict(fu[3]).get("extra_args") if isdl else None
+        want_set = ("mut", None, "setdefault", (("const", "VersionId"), ("sub", VER, ("const", "VersionId"))), ())
+        bound = extra is not None and any(x[0] == "phi" and x[1] == ("cmp", "is not", VER, ("const", None)) and x[2][0] == "mut" and x[2][2:] == want_set[2:]
+                                          for x in ir.walk(extra))
+        ok = v == VER and fresh and isdl and buf == d and bound
     ctx.ob("C19.R6.request", f"{mk.qualname}|request bound to its version", ok, mk.where(),
            "the returned buffer is the one the download of version['VersionId'] writes to" if ok
            else "make_request does not tie the returned buffer / version to the VersionId that is downloaded")
